@@ -756,6 +756,10 @@ def run(model, rep, tier):
                           f"{f9.qualname} prints its last field in chunks, but {ft9.qualname} reads it without concatenate_remaining_identifiers()/get_remaining(): "
                           "only the first chunk is read and the rest is a syntax error (any value longer than one chunk, or any smaller chunk size)", stmt="chunked-reader")
     rep.floor("R-05.9", n_ch, 10)
+    wb5 = model.func("dns.rdata._wordbreak")
+    rep.check(pat.has_expr(wb5.node, "[___d[__i:__i + ___c] for __i in range(0, len(___d), ___c)]"), "R-05.9", wb5.qualname, where(wb5, wb5.node), "chunks cover range(0, len(data), chunksize)",
+              "_wordbreak no longer slices data[i:i+chunksize] for i in range(0, len(data), chunksize): for some lengths the last octets of a chunked hex/base64 field are dropped and the text parses to another record "
+              "(or not at all)", stmt="wordbreak-covers")
     # ---------------------------------------------------------------- R-05.10
     fk = model.func("dns.style.BaseStyle.from_keywords")
     base = model.cls("dns.style.BaseStyle")
